@@ -74,6 +74,7 @@ type ctx struct {
 	used     bool
 	tmpN     int
 	curFunc  string
+	inst     map[string]bool // full paths of the files being instrumented (their sync types are substituted)
 }
 
 func main() {
@@ -182,6 +183,12 @@ func main() {
 	for _, b := range fNoYield {
 		noYield[b] = true
 	}
+	instSet := map[string]bool{}
+	for _, base := range strings.Split(*fFiles, ",") {
+		if base = strings.TrimSpace(base); base != "" {
+			instSet[filepath.Join(target.Dir, base)] = true
+		}
+	}
 	result := map[string]string{}
 	for k, v := range overlay {
 		result[k] = v
@@ -195,7 +202,7 @@ func main() {
 		if f == nil {
 			die("file %s is not part of package %s under tags %q", base, target.ImportPath, *fTags)
 		}
-		c := &ctx{fset: fset, info: info, pkg: pkg, file: base, blocking: blocking, noYield: noYield}
+		c := &ctx{fset: fset, info: info, pkg: pkg, file: base, blocking: blocking, noYield: noYield, inst: instSet}
 		c.rewriteFile(f)
 		var buf bytes.Buffer
 		if err := printer.Fprint(&buf, fset, f); err != nil {
@@ -440,7 +447,8 @@ func (c *ctx) typeSubst(n ast.Node) {
 		if !ok || pn.Imported().Path() != "sync" {
 			return true
 		}
-		if se.Sel.Name == "Map" || se.Sel.Name == "Pool" {
+		switch se.Sel.Name {
+		case "Map", "Pool", "Mutex", "RWMutex", "Once", "Cond", "NewCond":
 			id.Name = "verifsim"
 			c.used = true
 		}
@@ -550,6 +558,9 @@ func (c *ctx) scan(n ast.Node) (o ops) {
 				switch ob.Pkg().Path() {
 				case "sync", "sync/atomic":
 					o.sync = true
+					if fnm == "sync.NewCond" {
+						c.typeSubst(x.Fun)
+					}
 					if ob.Name() == "Wait" {
 						o.block = true
 					}
@@ -575,6 +586,91 @@ func (c *ctx) scan(n ast.Node) (o ops) {
 		return true
 	})
 	return
+}
+
+// substituted reports whether the sync object a method is called on is declared
+// in an instrumented file (its type was replaced by the simulator's version,
+// which needs no Locked/Unlocked bracketing).
+func (c *ctx) substituted(call *ast.CallExpr) bool {
+	sel, ok := ast.Unparen(call.Fun).(*ast.SelectorExpr)
+	if !ok {
+		return false
+	}
+	return c.substitutedRecv(sel)
+}
+
+func (c *ctx) substitutedRecv(sel *ast.SelectorExpr) bool {
+	// promoted method through embedded fields: find the embedded field
+	if s, ok := c.info.Selections[sel]; ok && len(s.Index()) > 1 {
+		t := s.Recv()
+		var fld *types.Var
+		idx := s.Index()
+		for _, i := range idx[:len(idx)-1] {
+			if p, ok := t.Underlying().(*types.Pointer); ok {
+				t = p.Elem()
+			}
+			st, ok := t.Underlying().(*types.Struct)
+			if !ok {
+				return false
+			}
+			fld = st.Field(i)
+			t = fld.Type()
+		}
+		if fld != nil {
+			return c.inst[c.fset.Position(fld.Pos()).Filename]
+		}
+		return false
+	}
+	x := ast.Unparen(sel.X)
+	for {
+		switch e := x.(type) {
+		case *ast.UnaryExpr:
+			x = ast.Unparen(e.X)
+			continue
+		case *ast.StarExpr:
+			x = ast.Unparen(e.X)
+			continue
+		case *ast.IndexExpr:
+			x = ast.Unparen(e.X)
+			continue
+		}
+		break
+	}
+	var obj types.Object
+	switch e := x.(type) {
+	case *ast.Ident:
+		obj = c.info.Uses[e]
+	case *ast.SelectorExpr:
+		if s, ok := c.info.Selections[e]; ok {
+			obj = s.Obj()
+		} else {
+			obj = c.info.Uses[e.Sel]
+		}
+	}
+	v, ok := obj.(*types.Var)
+	if !ok {
+		return false
+	}
+	// the variable/field must itself be of a sync type (or pointer/array of it) declared in an instrumented file
+	t := v.Type()
+	for {
+		switch u := t.(type) {
+		case *types.Pointer:
+			t = u.Elem()
+			continue
+		case *types.Array:
+			t = u.Elem()
+			continue
+		case *types.Slice:
+			t = u.Elem()
+			continue
+		}
+		break
+	}
+	if n, ok := t.(*types.Named); ok && n.Obj().Pkg() != nil && n.Obj().Pkg().Path() == "sync" {
+		return c.inst[c.fset.Position(v.Pos()).Filename]
+	}
+	return false
 }
 
 // syncCallKind: Lock/RLock -> 'L', Unlock/RUnlock -> 'U', Once.Do -> 'O'.
@@ -752,7 +848,7 @@ func (c *ctx) rewriteStmt(s ast.Stmt) []ast.Stmt {
 	case *ast.GoStmt:
 		return c.rewriteGo(s)
 	case *ast.DeferStmt:
-		if c.syncCallKind(s.Call) == 'U' {
+		if c.syncCallKind(s.Call) == 'U' && !c.substituted(s.Call) {
 			// defer mu.Unlock() -> defer verifsim.DeferUnlock(mu.Unlock)
 			c.used = true
 			c.scan(s.Call.Fun)
@@ -762,7 +858,15 @@ func (c *ctx) rewriteStmt(s ast.Stmt) []ast.Stmt {
 		c.scan(s.Call)
 		return []ast.Stmt{s}
 	case *ast.ExprStmt:
-		switch c.syncCallKind(s.X) {
+		kind := c.syncCallKind(s.X)
+		if kind != 0 && c.substituted(s.X.(*ast.CallExpr)) {
+			c.scan(s.X)
+			if kind == 'U' {
+				return []ast.Stmt{s}
+			}
+			return c.wrap(s, ops{sync: true}, s)
+		}
+		switch kind {
 		case 'L':
 			c.scan(s.X)
 			c.used = true
